@@ -72,7 +72,7 @@ using namespace cds_utils;
 #ifdef LIBCSD_VERIF
 // verification hook: lets a harness shrink the initial reservation at run time
 #include <cstddef>
-extern "C" size_t libcsd_verif_memalloc;
+extern "C" int libcsd_verif_memalloc; // int like the literal it replaces
 #undef MEMALLOC
 #define MEMALLOC libcsd_verif_memalloc
 #endif
